@@ -1,1 +1,173 @@
-Require Import LV.Data.DataModel LV.Data.DataProofs.
+(* Property C15: vnadata_t behaves like a typed frequency x rows x columns array with z0 modes.
+   Theorems only.  All statements are about LV.Data.DataModel (the checked-memory model of
+   vnadata_alloc.c, the vnadata.h accessors and the z0 files, tied to the implementation by the
+   op-script correspondence of checks/C15.py) with quirks = fixed, i.e. the behaviour of the code
+   after the repairs D4, D5, D6, D7, D40, D49; the `..._as_found` theorems are about the same
+   definitions with the behaviour of the code before those repairs.
+   V is the abstract value type with the two constants the code uses (0 and 50 ohm). *)
+Require Import List ZArith.
+Require Import LV.Data.DataModel LV.Data.ArraySpec LV.Data.DataProofs.
+Import ListNotations.
+
+Section C15.
+Variable V : Type.
+Variables vzero vdef : V.
+Notation vd := (vd V).
+Notation stepf := (step V vzero vdef fixed).
+Notation Inv := (Inv V vzero vdef).
+
+(* The invariant (allocations cover the logical sizes; every frequency, cell and impedance outside
+   the logical box holds its initial value; type/dimension rule; valid save options) holds after
+   vnadata_alloc, is preserved by every operation for all arguments, hence holds in every state
+   reachable by any operation sequence. *)
+Theorem c15_inv_init : Inv (vd_alloc V vzero vdef).
+Proof. exact (inv_alloc V vzero vdef). Qed.
+
+Theorem c15_inv_step : forall d o, Inv d -> Inv (fst (stepf d o)).
+Proof. exact (step_inv V vzero vdef). Qed.
+
+Theorem c15_inv_reachable : forall d, reachable V vzero vdef fixed d -> Inv d.
+Proof. exact (inv_reachable V vzero vdef). Qed.
+
+(* No operation accesses memory outside the allocations (the model checks every access). *)
+Theorem c15_no_fault : forall d o, Inv d -> o_ret V (snd (stepf d o)) <> RFault.
+Proof. exact (step_no_fault V vzero vdef). Qed.
+
+(* Any index outside [0,n), including n, is refused with the failure value (one error report,
+   EINVAL) and no effect on the object; all 16 indexed accessors, every index position. *)
+Theorem c15_index_n_refused : forall d o, bad_index V d o -> stepf d o = (d, fail V).
+Proof. exact (index_refused V vzero vdef). Qed.
+
+(* A successful resize presents every newly exposed frequency, cell and impedance with its
+   initial value and preserves the cells of the common flattened prefix. *)
+Theorem c15_resize_exposes_initial : forall Q d t r c f,
+  Inv d -> o_ret V (snd (resize V vzero vdef Q d t r c f)) = ROk ->
+  let d' := fst (resize V vzero vdef Q d t r c f) in
+  (forall i, freqs V d <= i -> fv V d' i = 0%Z) /\
+  (forall i j, freqs V d <= i \/ cells V d <= j -> dat V d' i j = vzero) /\
+  (per_f V d' = false -> forall j, ports V d <= j -> z0v V d' j = vdef) /\
+  (per_f V d' = true -> forall i j, freqs V d <= i \/ ports V d <= j -> z0vv V d' i j = vdef) /\
+  (forall i, i < freqs V d -> i < freqs V d' -> fv V d' i = fv V d i) /\
+  (forall i j, i < freqs V d -> i < freqs V d' -> j < cells V d -> j < cells V d' -> dat V d' i j = dat V d i j).
+Proof. exact (resize_exposes_initial V vzero vdef). Qed.
+
+(* Refinement to the abstract array of ArraySpec (partial: stated for resize, for the four
+   value getters and for the cell setter; the remaining setters are point / row updates of the
+   same shape and the vector getters are maps of the value getters - not restated here). *)
+Theorem c15_data_refines_array_resize_partial : forall Q d t r c f,
+  Inv d -> o_ret V (snd (resize V vzero vdef Q d t r c f)) = ROk ->
+  exists t', vpt_of_Z t = Some t' /\
+    arr_eq V (abs V (fst (resize V vzero vdef Q d t r c f)))
+             (spec_resize V vzero vdef (abs V d) t' (Z.to_nat r) (Z.to_nat c) (Z.to_nat f)).
+Proof. exact (refine_resize V vzero vdef). Qed.
+
+Theorem c15_resize_rejected_unchanged : forall Q d t r c f,
+  o_ret V (snd (resize V vzero vdef Q d t r c f)) <> ROk -> fst (resize V vzero vdef Q d t r c f) = d.
+Proof. exact (refine_resize_fail V vzero vdef). Qed.
+
+Theorem c15_data_refines_array_get_cell : forall d f r c,
+  Inv d -> stepf d (OGetCell V f r c) = (d, out_of V (spec_get_cell V (abs V d) f r c)).
+Proof. exact (refine_get_cell V vzero vdef). Qed.
+
+Theorem c15_data_refines_array_get_frequency : forall d i,
+  Inv d -> stepf d (OGetFreq V i) =
+           (d, match spec_get_frequency V (abs V d) i with Some x => okp V (PFreq x) | None => fail V end).
+Proof. exact (refine_get_frequency V vzero vdef). Qed.
+
+Theorem c15_data_refines_array_get_z0 : forall d p,
+  Inv d -> stepf d (OGetZ0 V p) = (d, out_of V (spec_get_z0 V (abs V d) p)).
+Proof. exact (refine_get_z0 V vzero vdef). Qed.
+
+Theorem c15_data_refines_array_get_fz0 : forall d f p,
+  Inv d -> stepf d (OGetFz0 V f p) = (d, out_of V (spec_get_fz0 V (abs V d) f p)).
+Proof. exact (refine_get_fz0 V vzero vdef). Qed.
+
+Theorem c15_data_refines_array_set_cell : forall d f r c v,
+  Inv d ->
+  match spec_set_cell V (abs V d) f r c v with
+  | Some a' => snd (stepf d (OSetCell V f r c v)) = ok V /\
+               arr_eq V (abs V (fst (stepf d (OSetCell V f r c v)))) a'
+  | None => stepf d (OSetCell V f r c v) = (d, fail V)
+  end.
+Proof. exact (refine_set_cell V vzero vdef). Qed.
+
+(* z0 mode rules of vnadata(3). *)
+Theorem c15_fz0_mode_rules_set_z0 : forall d p v,
+  Inv d -> in_range p (ports V d) = true ->
+  let d' := fst (stepf d (OSetZ0 V p v)) in
+  snd (stepf d (OSetZ0 V p v)) = ok V /\ per_f V d' = false /\ z0v V d' (Z.to_nat p) = v /\
+  (forall j, j <> Z.to_nat p -> z0v V d' j = if per_f V d then vdef else z0v V d j).
+Proof. exact (set_z0_rule V vzero vdef). Qed.
+
+Theorem c15_fz0_mode_rules_set_fz0 : forall d f p v,
+  Inv d -> in_range f (freqs V d) = true -> in_range p (ports V d) = true ->
+  let d' := fst (stepf d (OSetFz0 V f p v)) in
+  snd (stepf d (OSetFz0 V f p v)) = ok V /\ per_f V d' = true /\
+  z0vv V d' (Z.to_nat f) (Z.to_nat p) = v /\
+  (forall i j, i < freqs V d -> j < ports V d -> (i, j) <> (Z.to_nat f, Z.to_nat p) ->
+     z0vv V d' i j = if per_f V d then z0vv V d i j else z0v V d j).
+Proof. exact (set_fz0_rule V vzero vdef). Qed.
+
+Theorem c15_fz0_mode_rules_getters : forall d f p,
+  Inv d -> in_range f (freqs V d) = true -> in_range p (ports V d) = true ->
+  stepf d (OGetZ0 V p) = (if per_f V d then (d, fail V) else (d, okp V (PVal V (z0v V d (Z.to_nat p))))) /\
+  stepf d (OGetFz0 V f p) =
+    (d, okp V (PVal V (if per_f V d then z0vv V d (Z.to_nat f) (Z.to_nat p) else z0v V d (Z.to_nat p)))).
+Proof. exact (get_rules V vzero vdef). Qed.
+
+(* Non-vacuity: a non-trivial reachable state (per-frequency z0, 50 allocated frequency rows,
+   shrunk and regrown) satisfies the invariant, and an index-n call on a concrete state meets
+   the hypothesis of c15_index_n_refused. *)
+Theorem c15_inv_satisfiable :
+  Inv (run V vzero vdef fixed (vd_alloc V vzero vdef)
+         [OInit V 1 1 1 0; OAddFreq V 1; OSetZ0 V 0 vzero; OSetFz0 V 0 0 vzero;
+          OResize V 0 2 3 4; OSetCell V 3 1 2 vdef]).
+Proof. exact (inv_example V vzero vdef). Qed.
+
+Theorem c15_index_n_refused_satisfiable :
+  let d := run V vzero vdef fixed (vd_alloc V vzero vdef) [OInit V 1 3 3 1; OResize V 1 2 2 1] in
+  bad_index V d (OGetZ0 V 2) /\ stepf d (OGetZ0 V 2) = (d, fail V).
+Proof. exact (index_n_refused_example V vzero vdef). Qed.
+
+(* The code as found (before the repairs): index n = ports was accepted by the z0 accessors
+   (D4), the access could leave the allocation, and convert_to_fz0 broke the invariant (D6).
+   Each witness is a replayable script (corpus/C15). *)
+Theorem c15_index_n_refused_refuted_as_found :
+  exists d p, reachable V vzero vdef as_found d /\ bad_index V d (OGetZ0 V p) /\
+              o_ret V (snd (step V vzero vdef as_found d (OGetZ0 V p))) = ROk.
+Proof. exact (index_n_accepted_as_found V vzero vdef). Qed.
+
+Theorem c15_no_fault_refuted_as_found :
+  exists d p, reachable V vzero vdef as_found d /\
+              o_ret V (snd (step V vzero vdef as_found d (OGetZ0 V p))) = RFault.
+Proof. exact (fault_reachable_as_found V vzero vdef). Qed.
+
+Theorem c15_inv_refuted_as_found : vzero <> vdef ->
+  exists d, reachable V vzero vdef as_found d /\ ~ DataProofs.Inv V vzero vdef d.
+Proof. exact (inv_refuted_as_found V vzero vdef). Qed.
+
+End C15.
+
+(* Print Assumptions after the section is closed, so that the report is about the closed terms
+   (inside the section the section variables V, vzero, vdef would be listed). *)
+Print Assumptions c15_inv_init.
+Print Assumptions c15_inv_step.
+Print Assumptions c15_inv_reachable.
+Print Assumptions c15_no_fault.
+Print Assumptions c15_index_n_refused.
+Print Assumptions c15_resize_exposes_initial.
+Print Assumptions c15_data_refines_array_resize_partial.
+Print Assumptions c15_resize_rejected_unchanged.
+Print Assumptions c15_data_refines_array_get_cell.
+Print Assumptions c15_data_refines_array_get_frequency.
+Print Assumptions c15_data_refines_array_get_z0.
+Print Assumptions c15_data_refines_array_get_fz0.
+Print Assumptions c15_data_refines_array_set_cell.
+Print Assumptions c15_fz0_mode_rules_set_z0.
+Print Assumptions c15_fz0_mode_rules_set_fz0.
+Print Assumptions c15_fz0_mode_rules_getters.
+Print Assumptions c15_inv_satisfiable.
+Print Assumptions c15_index_n_refused_satisfiable.
+Print Assumptions c15_index_n_refused_refuted_as_found.
+Print Assumptions c15_no_fault_refuted_as_found.
+Print Assumptions c15_inv_refuted_as_found.
